@@ -335,6 +335,24 @@ theorem F4.setNow (g : Gw) (t : Nat) : F4 g (g.setNow t) := F4.of_eq rfl rfl rfl
 theorem F4.clearBuffer (g : Gw) : F4 g g.clearBuffer := F4.of_eq rfl rfl rfl rfl rfl
 theorem F4.cancelSleepPinger (g : Gw) : F4 g g.cancelSleepPinger := F4.of_eq rfl rfl rfl rfl rfl
 theorem F4.startSleepPinger (g : Gw) (d : UInt16) : F4 g (g.startSleepPinger d) := F4.of_eq rfl rfl rfl rfl rfl
+theorem F4.armSleepPinger (g : Gw) (d : UInt16) : F4 g (g.armSleepPinger d) := by
+  unfold Gw.armSleepPinger
+  split
+  · exact F4.cancelSleepPinger g
+  · exact (F4.cancelSleepPinger g).trans (F4.startSleepPinger _ _)
+theorem F4.pingBroker (g : Gw) : F4 g g.pingBroker := by
+  unfold Gw.pingBroker
+  have h0 : F4 g ({ g with ownPings := g.ownPings + 1 } : Gw) := F4.of_eq rfl rfl rfl rfl rfl
+  exact h0.trans (F4.mqttSend _ _)
+theorem F4.keepBrokerAlive (g : Gw) : F4 g g.keepBrokerAlive := by
+  unfold Gw.keepBrokerAlive
+  split
+  · exact F4.refl g
+  · split
+    · split
+      · exact F4.refl g
+      · exact F4.pingBroker g
+    · exact F4.pingBroker g
 
 /-! ### the allocator -/
 
@@ -788,15 +806,12 @@ theorem F4.handleConnect (g : Gw) (will clean : Bool) (dur : UInt16) (cid : Byte
 theorem F4.handlePingreq (g : Gw) : F4 g g.handlePingreq := by
   unfold Gw.handlePingreq
   split
-  · exact (((F4.setSt g _).trans (F4.flushBuffer _)).trans (F4.snSend _ _ _)).trans (F4.setSt _ _)
+  · exact ((((F4.setSt g _).trans (F4.flushBuffer _)).trans (F4.snSend _ _ _)).trans (F4.setSt _ _)).trans (F4.armSleepPinger _ _)
   · exact F4.mqttSend g _
 theorem F4.handleSleep (g : Gw) (d : UInt16) : F4 g (g.handleSleep d) := by
   unfold Gw.handleSleep
-  have h1 : F4 g (g.cancelSleepPinger.maybeSleepPinger d) := by
-    unfold Gw.maybeSleepPinger
-    split
-    · exact (F4.cancelSleepPinger g).trans (F4.startSleepPinger _ _)
-    · exact F4.cancelSleepPinger g
+  have h0 : F4 g ({ g with sleepDur := d } : Gw) := F4.of_eq rfl rfl rfl rfl rfl
+  have h1 : F4 g (({ g with sleepDur := d } : Gw).armSleepPinger d) := h0.trans (F4.armSleepPinger _ _)
   have h2 : ∀ x : Gw, F4 x x.clearBufferUnlessAsleep := by
     intro x; unfold Gw.clearBufferUnlessAsleep; split
     · exact F4.clearBuffer x
@@ -866,7 +881,7 @@ theorem F4.fireDue (g : Gw) (d : Due) : F4 g (g.fireDue d) := by
   · unfold Gw.firePing
     have h0 : ∀ (x : Gw) (i : Nat), F4 x ({ x with pingers := x.pingers.mapIdx (fun j (p : Pinger) =>
         if j = i then { p with next := p.next + p.period } else p) } : Gw) := fun x i => F4.of_eq rfl rfl rfl rfl rfl
-    exact ((F4.setNow g _).trans (h0 _ _)).trans (F4.mqttSend _ _)
+    exact ((F4.setNow g _).trans (h0 _ _)).trans (F4.pingBroker _)
   · exact F4.of_eq rfl rfl rfl rfl rfl
 
 theorem F4.finishSession (g : Gw) : F4 g g.finishSession := by
@@ -995,8 +1010,10 @@ theorem F4.handleMq (g : Gw) (p : MqPkt) : F4 g (g.handleMq p) := by
     · exact F4.refl g
   · exact F4.snSend g _ _
   · split
-    · exact F4.refl g
-    · exact F4.snSend g _ _
+    · exact F4.of_eq rfl rfl rfl rfl rfl
+    · split
+      · exact F4.refl g
+      · exact F4.snSend g _ _
   · exact F4.handleBrokerPublish g _ _ _ _ _ _
   · split
     · split
@@ -1011,7 +1028,7 @@ theorem F4.handleEvent (g : Gw) (ev : Event) : F4 g (g.handleEvent ev) := by
   unfold Gw.handleEvent
   split
   · split
-    · exact F4.handleSn g _
+    · exact (F4.handleSn g _).trans (F4.keepBrokerAlive _)
     · exact F4.fail g _
   · exact F4.handleMq g _
   · exact F4.fail g _
